@@ -188,6 +188,11 @@ def _run(d: bi.Dir, states: list, res: dict, opts: dict) -> None:
         diffs = bi.diff_states(exp_f, exp_db, obs_f, obs_db)
         for cat, p, det in diffs:
             _issue(res, k, last, f"{cat}.{last}", {"page": p, **det})
+        # the fifth store: the error-file whitelist must be the specification's wl (after a refusal: unchanged)
+        obs_wl = sorted(env.whitelist())
+        exp_wl = sorted(d.names[p] for p in st["wl"])
+        if obs_wl != exp_wl:
+            _issue(res, k, last, f"whitelist.{last}", {"expected": exp_wl, "observed": obs_wl})
         # ---------------- the properties' own statements on the real stores
         if not refused_expected:
             if last in ("create", "reindex"):
